@@ -57,6 +57,8 @@ type histOp struct {
 }
 
 // model is the sequential reference: which message is loaded and the bit arrays of both messages.
+// The message installed by Reload has every bit set, so that every query distinguishes "m1 is
+// loaded" from "m0 (empty) is loaded" and from "nothing is loaded".
 type model struct {
 	loaded int // 0 none, 1 m0, 2 m1
 	b      [3]*ref.Bloom
@@ -66,7 +68,7 @@ func newModel(g string) *model {
 	n, k := geom(g)
 	m := &model{loaded: 1}
 	m.b[1] = ref.NewBloom(make([]byte, n), k, 0x1234, 1)
-	m.b[2] = ref.NewBloom(bytes.Repeat([]byte{0x00}, n+1), k, 0x9999, 1)
+	m.b[2] = ref.NewBloom(bytes.Repeat([]byte{0xff}, n+1), k, 0x9999, 1)
 	return m
 }
 
@@ -180,7 +182,7 @@ func linearizable(g string, hist []histOp, final string) (bool, []int) {
 func RunBloom(cfg BloomConfig, choose func(step int, enabled []int, runningEnabled bool) int) *Outcome {
 	n, k := geom(cfg.Geom)
 	m0 := wire.NewMsgFilterLoad(make([]byte, n), k, 0x1234, wire.BloomUpdateAll)
-	m1 := wire.NewMsgFilterLoad(bytes.Repeat([]byte{0x00}, n+1), k, 0x9999, wire.BloomUpdateAll)
+	m1 := wire.NewMsgFilterLoad(bytes.Repeat([]byte{0xff}, n+1), k, 0x9999, wire.BloomUpdateAll)
 	f := bloom.LoadFilter(m0)
 	hists := make([][]histOp, len(cfg.Progs))
 	bodies := make([]func(), len(cfg.Progs))
